@@ -6,8 +6,9 @@
    (constants of gen/Consts_gen.v, Unicode facts of gen/Unicode_gen.v). *)
 From Coq Require Import List ZArith NArith Bool Lia.
 From Pcfg Require Import Str Multiword Detect Segment SegCorr DetectRt DetectRt2 DetectProofsStr DetectProofsDrive DetectProofsMw
-     DetectProofsSeg DetectProofsWeb DetectProofsInst DetectGenProofs DetectGenProofsMw DetectGenProofsEmail DetectGenProofsWeb.
-From PcfgGen Require Import Consts_gen Unicode_gen Detect_gen DetectMw_gen DetectEmail_gen DetectWeb_gen.
+     DetectProofsSeg DetectProofsWeb DetectProofsInst DetectGenProofs DetectGenInst DetectGenProofsMw DetectGenProofsEmail
+     DetectGenProofsWeb DetectGenProofsKbd.
+From PcfgGen Require Import Consts_gen Unicode_gen Detect_gen DetectMw_gen DetectEmail_gen DetectWeb_gen DetectKbd_gen.
 Import ListNotations.
 Open Scope Z_scope.
 
@@ -241,3 +242,92 @@ Proof.
   unfold py_website_stage_c, model_website_detection. rewrite py_website_detection_c_is_model.
   now destruct (drive_all _ _ sl) as [[out fs]|].
 Qed.
+
+(* ------------------------------------------------------------------ *)
+(* the keyboard-walk detector                                          *)
+(* ------------------------------------------------------------------ *)
+
+(* the layouts as the translator reads them off the dict literals of _get_us_keyboard /
+   _get_jcuken_keyboard are the rows the constants extractor got by calling them, and the
+   default of min_keyboard_run is the extracted one *)
+Lemma side_py_kbs : py_kbs = c_kbs.
+Proof. vm_compute. reflexivity. Qed.
+Lemma side_min_run_4 : c_min_run = 4.
+Proof. reflexivity. Qed.
+
+(* detect_keyboard_walk(password) as parse() calls it (fuel: one more than the model's) *)
+Definition py_keyboard_walk_c (pw : str) : option (list section * list str * list str) :=
+  py_detect_keyboard_walk c_isalpha c_isdigit c_lower (S (length pw)) pw 4.
+
+Theorem py_keyboard_walk_c_is_model pw :
+  kw_view (py_keyboard_walk_c pw) =
+  detect_keyboard_walk c_isalpha c_isdigit c_lower c_kbs kb_false_positive_words c_min_run (length pw) pw.
+Proof. unfold py_keyboard_walk_c. rewrite py_detect_keyboard_walk_eq, side_py_kbs. reflexivity. Qed.
+
+(* keyboard_split_ok for the translated detector: it does not raise (the fuel of the
+   recursion suffices), its sections tile the password and are soundly labelled *)
+Theorem py_keyboard_split_ok : forall pw, pw <> [] ->
+  exists sl f dk, py_keyboard_walk_c pw = Some (sl, f, dk) /\ tiles c_pm pw sl /\ Forall c_sound sl.
+Proof.
+  intros pw H. destruct (kw_c_ok pw H) as (sl & f & E & Ht & Hs).
+  rewrite <- py_keyboard_walk_c_is_model in E.
+  destruct (py_keyboard_walk_c pw) as [[[sl' f'] dk]|]; [|discriminate]. cbn in E. injection E as -> ->.
+  exists sl, f, dk. auto.
+Qed.
+
+Definition py_keyboard_stage_c (pw : str) : option (list section) :=
+  option_map (fun r => fst (fst r)) (py_keyboard_walk_c pw).
+
+Lemma py_keyboard_stage_c_is_model pw :
+  py_keyboard_stage_c pw = model_keyboard_walk c_isalpha c_isdigit c_lower c_kbs kb_false_positive_words c_min_run pw.
+Proof.
+  unfold py_keyboard_stage_c, model_keyboard_walk. rewrite <- py_keyboard_walk_c_is_model.
+  now destruct (py_keyboard_walk_c pw) as [[[sl f] dk]|].
+Qed.
+
+(* ------------------------------------------------------------------ *)
+(* the whole pipeline, translated                                      *)
+(* ------------------------------------------------------------------ *)
+
+(* PCFGPasswordParser.parse over the translated detect_keyboard_walk, email_detection,
+   website_detection and MultiWordDetector.parse (t: the trie of the detector object):
+   nothing of the trainer's segmentation is a model parameter any more *)
+Definition py_parse_full_c (t : trie) (pw : str) :=
+  py_parse c_isalpha c_isdigit c_isupper c_lower (py_mwparse_c t)
+           py_keyboard_stage_c py_email_stage_c py_website_stage_c pw.
+
+Theorem py_parse_full_c_is_model t m pw : mw_rep t m -> py_parse_full_c t pw = parse_view (parse_c m pw).
+Proof.
+  intros Hr. unfold py_parse_full_c, parse_c, parse_gen. rewrite side_lower_aligned.
+  apply py_parse_eq_ext.
+  - intros x. now apply py_mwparse_c_is_model.
+  - apply py_keyboard_stage_c_is_model.
+  - apply py_email_stage_c_is_model.
+  - apply py_website_stage_c_is_model.
+Qed.
+
+(* C05 for the fully translated pipeline, for every reachable state of the detector *)
+Theorem py_parse_full_c_tiling : forall t pw, mw_reachable t -> pw <> [] ->
+  exists sl ys cs al ms ds os, py_parse_full_c t pw = Some (sl, ys, cs, al, ms, ds, os) /\
+    tiles c_pm pw sl /\ Forall c_sound sl /\ Forall (fun y => snd y <> None) sl.
+Proof.
+  intros t pw Hre H. destruct (mw_reachable_rep t Hre) as (m & Hr).
+  rewrite (py_parse_full_c_is_model t m pw Hr), <- py_parse_c_is_model. now apply py_parse_c_tiling.
+Qed.
+
+Theorem py_parse_full_c_never_raises : forall t pw, mw_reachable t -> pw <> [] -> py_parse_full_c t pw <> None.
+Proof.
+  intros t pw Hre H. destruct (py_parse_full_c_tiling t pw Hre H) as (sl & ys & cs & al & ms & ds & os & E & _). now rewrite E.
+Qed.
+
+(* the generated code runs: '1qaz2019#1pass!' through the fully translated pipeline,
+   and 'test1qaztest' through the translated keyboard-walk detector *)
+Lemma demo_py_parse_full :
+  py_parse_full_c t_empty w_demo =
+  Some ([([49; 113; 97; 122]%N, Some (LK 4)); ([50; 48; 49; 57]%N, Some LY); ([35; 49]%N, Some LX);
+         ([112; 97; 115; 115]%N, Some (LA 4)); ([33]%N, Some (LO 1))],
+        [[50; 48; 49; 57]%N], [[35; 49]%N], [[112; 97; 115; 115]%N], [[76; 76; 76; 76]%N], [], [[33]%N]) /\
+  py_keyboard_walk_c [116; 101; 115; 116; 49; 113; 97; 122; 116; 101; 115; 116]%N =
+  Some ([([116; 101; 115; 116]%N, None); ([49; 113; 97; 122]%N, Some (LK 4)); ([116; 101; 115; 116]%N, None)],
+        [[49; 113; 97; 122]%N], [[113; 119; 101; 114; 116; 121]%N]).
+Proof. split; vm_compute; reflexivity. Qed.
